@@ -31,6 +31,9 @@ pub struct RefGrammar {
     pub prod_prec: Vec<(usize, usize, usize)>,
     /// `%avoid_insert` set
     pub avoid_insert: Vec<usize>,
+    /// tokens with an `%epp 'tok' "pretty tok"` declaration (display only: nothing but
+    /// `token_epp` may depend on it)
+    pub epp: Vec<usize>,
     /// Optional custom names (otherwise R<i> / t<i>)
     pub rule_names: Option<Vec<String>>,
     pub tok_names: Option<Vec<String>>,
@@ -44,6 +47,7 @@ impl RefGrammar {
             precs: vec![],
             prod_prec: vec![],
             avoid_insert: vec![],
+            epp: vec![],
             rule_names: None,
             tok_names: None,
         }
@@ -142,6 +146,9 @@ impl RefGrammar {
             }
             writeln!(s).ok();
         }
+        for t in &self.epp {
+            writeln!(s, "%epp '{}' \"pretty {}\"", self.tok_name(*t), self.tok_name(*t)).ok();
+        }
         for (a, ts) in &self.precs {
             let kw = match a {
                 Assoc::Left => "%left",
@@ -181,6 +188,9 @@ impl RefGrammar {
     /// Compact one-line rendering used in evidence samples and replay files.
     pub fn short(&self) -> String {
         let mut s = String::new();
+        if !self.epp.is_empty() {
+            write!(s, "epp{:?} ", self.epp).ok();
+        }
         for (a, ts) in &self.precs {
             write!(s, "{:?}{:?} ", a, ts).ok();
         }
@@ -648,6 +658,7 @@ impl RefGrammar {
             "precs": precs,
             "prod_prec": self.prod_prec,
             "avoid_insert": self.avoid_insert,
+            "epp": self.epp,
             "rule_names": self.rule_names,
             "tok_names": self.tok_names,
             "text": self.short(),
@@ -692,6 +703,9 @@ impl RefGrammar {
         }
         if let Some(a) = v.get("avoid_insert").and_then(|x| x.as_array()) {
             g.avoid_insert = a.iter().filter_map(|x| x.as_u64()).map(|x| x as usize).collect();
+        }
+        if let Some(a) = v.get("epp").and_then(|x| x.as_array()) {
+            g.epp = a.iter().filter_map(|x| x.as_u64()).map(|x| x as usize).collect();
         }
         if let Some(a) = v.get("rule_names").and_then(|x| x.as_array()) {
             g.rule_names = Some(a.iter().filter_map(|x| x.as_str()).map(|x| x.to_string()).collect());
@@ -929,6 +943,7 @@ pub fn padded(base: &RefGrammar, ptoks: usize, prules: usize) -> RefGrammar {
     }
     out.prod_prec = base.prod_prec.iter().map(|&(r, i, t)| (r + rshift, i, t + ptoks)).collect();
     out.avoid_insert = base.avoid_insert.iter().map(|t| t + ptoks).collect();
+    out.epp = base.epp.iter().map(|t| t + ptoks).collect();
     out
 }
 
@@ -1007,6 +1022,24 @@ pub fn family_wide() -> Vec<RefGrammar> {
                 continue;
             }
             out.push(padded(b, pt, pr));
+        }
+    }
+    // The classic LR(1)-but-not-LALR(1) grammar `S: a A d | a B e | b A e | b B d; A: c; B: c`, its
+    // mirror image and the three-production neighbours of both (members of F-lalr that *are* LR(1),
+    // unlike its last members above), with every position of the word boundary relative to the
+    // five tokens a..e: all of them below it, it falls between each adjacent pair, all of them
+    // above it, and all of them in the last, partial word of a two-word set.
+    let prod = |i: usize| vec![T(i / 4), R(1 + (i / 2) % 2), T(3 + i % 2)];
+    for full in [[0usize, 3, 5, 6], [1, 2, 4, 7]] {
+        let mut subsets: Vec<Vec<usize>> = vec![full.to_vec()];
+        for drop in 0..4 {
+            subsets.push(full.iter().enumerate().filter(|(k, _)| *k != drop).map(|(_, &i)| i).collect());
+        }
+        for sub in subsets {
+            let b = g(5, vec![sub.iter().map(|&i| prod(i)).collect(), vec![vec![T(2)]], vec![vec![T(2)]]]);
+            for (pt, pr) in [(58usize, 0usize), (59, 1), (60, 2), (61, 3), (62, 4), (63, 5), (64, 6), (100, 0), (121, 0)] {
+                out.push(padded(&b, pt, pr));
+            }
         }
     }
     out
